@@ -93,7 +93,7 @@ CheckOracle(fn, v) ==
     [] fn.o = "str_has"    -> \E i \in 1..Len(v["$s"]) : v["$s"][i] = fn.c
     [] fn.o = "len_le"     -> Len(v[fn.f]) <= fn.n
     [] fn.o = "is_some"    -> v[fn.f]["$"] = "Some"
-    [] fn.o = "variant_is" -> v["$"] = fn.name
+    [] fn.o = "variant_is" -> v["$"] = fn.variant
     [] fn.o = "span_le"    -> v["position"]["$r"][2] - v["position"]["$r"][1] <= fn.n
 
 \* @check functions on @char rules see the next character
